@@ -185,6 +185,7 @@ MUTANTS['C16'] = (
 #   C01 intersperse-order-key, C03 slice-foreign-key-forwarded
 
 MUTANTS['C08'] = [
+  ('from-dataset-starts-over-after-a-late-refusal', [(C, "        if items and examples.indexable:", "        if False:")]),
   ('map-iter-eager-list', [(C, "            for v in self.input_dataset:\n                yield self.map_function(v)\n\n    def keys(self):", "            yield from [self.map_function(x) for x in self.input_dataset]\n\n    def keys(self):")]),
   ('filter-predicate-twice', [(C, "            for example in self.input_dataset:\n                total_count += 1\n                if self.filter_function(example):\n                    yield example", "            for example in self.input_dataset:\n                total_count += 1\n                if self.filter_function(example) and self.filter_function(example):\n                    yield example")]),
   ('batch-getitem-fetches-whole-input', [(C, "            input_index = item * int(self.batch_size)\n            current_batch = []", "            input_index = item * int(self.batch_size)\n            _all = list(self.input_dataset)\n            current_batch = []")]),
